@@ -84,3 +84,12 @@ Proof.
   - destruct Hidx as [-> | ->]; [now apply H1 | now apply H2].
   - intros i Hi. rewrite Lc. now apply (B ix).
 Qed.
+
+(* hexahedra: the boundary refdom lists the four sides of a quadrilateral in cyclic order, facets are kept unsorted, and
+   (facet slot, side) compositions are exactly the edge slots *)
+Lemma hex_bnd_cyclic : hex_bnd = [[0; 1]; [1; 2]; [2; 3]; [0; 3]].
+Proof. reflexivity. Qed.
+Lemma hex_unsorted_facets : hex_sortf = false.
+Proof. reflexivity. Qed.
+Lemma hex_compose_ok : compose_ok hex_facets hex_bnd hex_edges = true.
+Proof. vm_compute. reflexivity. Qed.
